@@ -68,6 +68,18 @@ evs.append(mo); good.append(mo)
 mut(mo, "metric-offset-val", "Value", lambda e: e["out"]["vals"].__setitem__(1, e["out"]["vals"][1] + 30))
 mut(ex, "permute-alias", "PermuteAliasesInput", lambda e: e["permute"][3].__setitem__("alias", True))
 mut(le, "lev-sum-double", "SumsToOneDouble", lambda e: e["out"].__setitem__("sumdev", 30000))
+ti = pick(lambda c: c["kind"] == "ties" and c["R"] == 3 and c["M"] == 1 and not c["dup"] and c["sc"] == 1 and c["p"] == [2, 3, 1])
+ti["id"] = "good-ties"
+td = pick(lambda c: c["kind"] == "ties" and c["R"] == 3 and c["M"] == 1 and c["dup"] and c["sc"] == 0 and c["p"] == [2, 3, 1])
+td["id"] = "good-ties-dup"
+evs += [ti, td]; good += [ti, td]
+mut(ti, "ties-identity", "CongTieNotOptimal", lambda e: e["cong"][0].__setitem__("perm", [0, 1, 2]))
+mut(ti, "ties-permute", "PermuteTieNotOptimal", lambda e: e["permute"][0].__setitem__("perm", [0, 1, 2]))
+mut(td, "ties-dup-wrong", "CongTieNotOptimal", lambda e: e["cong"][0].__setitem__("perm", [e["cong"][0]["perm"][1], e["cong"][0]["perm"][0], e["cong"][0]["perm"][2]][::-1]))
+ml = pick(lambda c: c["kind"] == "metric" and c["op"] == "covariance" and c["shape"] == [2, 3, 2] and c["axis"] == -3 and c["lay"] == "ro")
+ml["id"] = "good-metric-layout"
+evs.append(ml); good.append(ml)
+mut(ml, "metric-layout-raised", "Raised", lambda e: e["out"].update(raised=True))
 mut(ge, "gen-val", "CongValueOfPerm", lambda e: e["cong"][0].__setitem__("val", e["cong"][0]["val"] + 60))
 mut(ge, "gen-corr", "CorrStacked", lambda e: e["corr"].__setitem__("stacked", e["corr"]["stacked"] + 10))
 mut(ge, "gen-corravg", "CorrAvg", lambda e: e["corr"].__setitem__("avg_score", e["corr"]["avg_score"] + 10))
